@@ -226,6 +226,102 @@ theorem claim_of_findCert {eqs : List (List Dag × Dag)} {e u : Box} {vars : Lis
   have := List.find?_some h
   exact claim_of_certifiedBy this
 
+
+/-! ### existence for every parameter value by subdivision of the parameter ranges -/
+
+theorem getElem?_setAt (e : Box) (i : ℕ) (J : Itv) (j : ℕ) :
+    (setAt e i J)[j]? = (e[j]?).map fun I => if (j == i) = true then J else I := by
+  simp only [setAt, List.getElem?_map, List.getElem?_zipIdx, Nat.zero_add]
+  cases e[j]? <;> simp
+
+theorem mem_fin_iff {a b : ℚ} {t : ℝ} : t ∈ Itv.mk (.fin a) (.fin b) ↔ (a : ℝ) ≤ t ∧ t ≤ (b : ℝ) := by
+  simp only [Itv.mem_mk, Ext.toE_fin, EReal.coe_le_coe_iff]
+
+/-- a point of the box with a narrowed coordinate is a point of the box -/
+theorem mem_of_mem_setAt {e : Box} {i : ℕ} {J I0 : Itv} {z : List ℝ} (hz : Box.Mem z (setAt e i J))
+    (hI : e[i]? = some I0) (hsub : ∀ t : ℝ, t ∈ J → t ∈ I0) : Box.Mem z e := by
+  rw [Box.Mem, forall₂_iff_getElem?] at hz ⊢
+  obtain ⟨hlen, hall⟩ := hz
+  refine ⟨by simpa [setAt] using hlen, fun j a I ha hIj => ?_⟩
+  have := hall j a (if (j == i) = true then J else I) ha (by rw [getElem?_setAt, hIj]; rfl)
+  by_cases hji : (j == i) = true
+  · rw [if_pos hji] at this
+    have hj : j = i := by simpa using hji
+    subst hj
+    rw [hI] at hIj
+    injection hIj with hIj
+    exact hIj ▸ hsub a this
+  · rwa [if_neg hji] at this
+
+/-- narrowing a parameter range that still contains the parameter keeps `ParamsIn` -/
+theorem paramsIn_setAt {vars : List ℕ} {π : List ℝ} {e : Box} {i : ℕ} {J : Itv} (hπ : ParamsIn vars π e)
+    (hJ : ∀ t, π[i]? = some t → t ∈ J) : ParamsIn vars π (setAt e i J) := by
+  refine ⟨by simpa [setAt] using hπ.1, fun j t I hj ht hI => ?_⟩
+  rw [getElem?_setAt] at hI
+  cases hE : e[j]? with
+  | none => rw [hE] at hI; cases hI
+  | some I1 =>
+    rw [hE] at hI
+    simp only [Option.map_some, Option.some.injEq] at hI
+    by_cases hji : (j == i) = true
+    · rw [if_pos hji] at hI
+      have hj : j = i := by simpa using hji
+      subst hj
+      exact hI ▸ hJ t ht
+    · rw [if_neg hji] at hI
+      exact hI ▸ hπ.2 j t I1 hj ht hE
+
+/-- **existence for every parameter value**, from the subdivision certificate -/
+theorem existSplit_sound {eqs : List (List Dag × Dag)} {vars : List ℕ} (hpc : Verdict.pointConsts eqs = true) :
+    ∀ (d : ℕ) {e : Box}, existSplit eqs vars d e = true →
+      ∀ π, ParamsIn vars π e → ∃ z, Box.Mem z e ∧ SameParams vars z π ∧ Zero eqs z := by
+  have base : ∀ {e : Box}, Newton.existCertVars eqs e vars = true →
+      ∀ π, ParamsIn vars π e → ∃ z, Box.Mem z e ∧ SameParams vars z π ∧ Zero eqs z :=
+    fun hex π hπ => exists_zero_of_cert ((pointConsts_eq eqs).symm.trans hpc) hex π hπ.1 hπ.2
+  intro d
+  induction d with
+  | zero => intro e h; exact base (by simpa [existSplit] using h)
+  | succ d ih =>
+    intro e h π hπ
+    simp only [existSplit, Bool.or_eq_true] at h
+    rcases h with h | h
+    · exact base h π hπ
+    · split at h
+      · rename_i i a b _
+        simp only [Bool.and_eq_true, Bool.not_eq_true', decide_eq_true_eq] at h
+        obtain ⟨⟨⟨⟨hi, hab⟩, hI⟩, hl⟩, hr⟩ := h
+        have hiv : i ∉ vars := fun hm => by
+          rw [List.contains_iff_mem.2 hm] at hi; cases hi
+        have hlt : i < π.length := by
+          rw [hπ.1]; exact (List.getElem?_eq_some_iff.1 hI).1
+        have hπi : π[i]? = some π[i] := List.getElem?_eq_getElem hlt
+        have hmem : (a : ℝ) ≤ π[i] ∧ π[i] ≤ (b : ℝ) := mem_fin_iff.1 (hπ.2 i _ _ hiv hπi hI)
+        have habR : (a : ℝ) ≤ (b : ℝ) := by exact_mod_cast hab
+        have hm : (((a + b) / 2 : ℚ) : ℝ) = ((a : ℝ) + b) / 2 := by push_cast; ring
+        by_cases hcase : π[i] ≤ ((a : ℝ) + b) / 2
+        · obtain ⟨z, hz, hzp, hz0⟩ := ih hl π (paramsIn_setAt hπ fun t ht => by
+            rw [hπi] at ht; injection ht with ht; subst ht
+            exact mem_fin_iff.2 ⟨hmem.1, by rw [hm]; exact hcase⟩)
+          refine ⟨z, mem_of_mem_setAt hz hI (fun t ht => ?_), hzp, hz0⟩
+          have := mem_fin_iff.1 ht
+          rw [hm] at this
+          exact mem_fin_iff.2 ⟨this.1, by linarith [this.2]⟩
+        · obtain ⟨z, hz, hzp, hz0⟩ := ih hr π (paramsIn_setAt hπ fun t ht => by
+            rw [hπi] at ht; injection ht with ht; subst ht
+            exact mem_fin_iff.2 ⟨by rw [hm]; linarith, hmem.2⟩)
+          refine ⟨z, mem_of_mem_setAt hz hI (fun t ht => ?_), hzp, hz0⟩
+          have := mem_fin_iff.1 ht
+          rw [hm] at this
+          exact mem_fin_iff.2 ⟨by linarith [this.1], this.2⟩
+      · cases h
+
+/-- **full certificate with subdivision of the parameter ranges** -/
+theorem claim_of_certifiedSplit {eqs : List (List Dag × Dag)} {e u : Box} {vars : List ℕ} {d : ℕ}
+    (h : certifiedSplit eqs e u vars d = true) : SolClaim eqs e u vars := by
+  simp only [certifiedSplit, Bool.and_eq_true] at h
+  obtain ⟨⟨⟨hpc, hex⟩, hsub⟩, hun⟩ := h
+  exact claim_of_certificates hsub hun (existSplit_sound hpc d hex)
+
 /-- a solution box accepted by `Box.subset e root` lies in the initial box -/
 theorem solution_in_initial_box {e root : Box} (h : Box.subset e root = true) {p : List ℝ}
     (hp : Box.Mem p e) : Box.Mem p root := Box.subset_sound h hp
